@@ -263,7 +263,7 @@ Section Runs2.
     intros Hg Hwf Hfull H.
     pose proof (run_inc_safe owner n v Hv _ _ _ _ Hg Hwf Hfull H) as Hg'.
     split; [|exact Hg']. apply at_end_converged; [|apply Hg'].
-    destruct Hg as (Hn & Hown & [Hlen Hs]). destruct Hwf as (Hb & Hn1 & Hsingle & _).
+    destruct Hg as (Hn & Hown & [Hlen Hs]). destruct Hwf as (Hb & Hn1 & Hsingle & _ & _).
     unfold run_job in H. destruct (early_fail r); [discriminate|].
     unfold run_body in H. rewrite Hfull in H. fold eqf dm in H.
     destruct (r_union r) eqn:Hu.
@@ -300,7 +300,7 @@ Section Runs2.
     r_full r = true -> r_flt r = FNone ->
     exists st', run_job v st r = (st', OOk).
   Proof.
-    intros Hn Hown (Hb & Hn1 & Hsingle & _) Hfull Hflt.
+    intros Hn Hown (Hb & Hn1 & Hsingle & _ & _) Hfull Hflt.
     unfold run_job. rewrite (early_fail_none _ Hflt).
     unfold run_body. rewrite Hfull, Hflt. fold eqf dm.
     destruct (r_union r) eqn:Hu.
@@ -320,7 +320,7 @@ Lemma run_idem_any owner n v st r :
   at_end (st_srcs st) (st_tok st) -> length (st_srcs st) = n -> wf_op owner n (ORun r) ->
   r_full r = false -> exists o, run_job v st r = (st, o).
 Proof.
-  intros Hend Hn (Hb & Hn1 & Hsingle & _) Hfull.
+  intros Hend Hn (Hb & Hn1 & Hsingle & _ & _) Hfull.
   unfold run_job. destruct st as [srcs sink tok]. cbn [st_srcs st_sink st_tok] in *.
   destruct (early_fail r); [rewrite Hfull; eauto|].
   unfold run_body. rewrite Hfull. cbn [st_srcs st_sink st_tok].
@@ -395,7 +395,7 @@ Section Origin.
     good owner n st -> orig owner (st_srcs st) (st_sink st) -> wf_op owner n (ORun r) ->
     run_job v st r = (st', o) -> orig owner (st_srcs st') (st_sink st').
   Proof.
-    intros (Hn & Hown & [Hlen Hs]) Ho (Hb & Hn1 & Hsingle & _) H.
+    intros (Hn & Hown & [Hlen Hs]) Ho (Hb & Hn1 & Hsingle & _ & _) H.
     assert (Hmem : forall s, wrote eqf dm (from_member (st_srcs st)) (st_sink st) s -> orig owner (st_srcs st) s).
     { intros s W. apply orig_wrote with (st_sink st); [|exact Ho].
       eapply wrote_weaken; [|exact W]. intros x (k & Hk & Hx). eapply okv_member; eauto. }
@@ -450,7 +450,8 @@ Section Origin.
       destruct Hg as (Hn & _). lia.
     - destruct Hwf.
     - cbn [step] in H. injection H as <- _. exact Ho.
-    - cbn [step] in H. destruct (run_job v st r) as [st1 o1] eqn:Hrun. injection H as <- _.
+    - cbn [step] in H. unfold run_any in H. rewrite (proj2 (proj2 (proj2 (proj2 Hwf)))) in H.
+      destruct (run_job v st r) as [st1 o1] eqn:Hrun. injection H as <- _.
       eapply run_orig; eauto.
   Qed.
 End Origin.
@@ -593,4 +594,81 @@ Proof.
       cbn [st_sink st_srcs st_tok]. split; [reflexivity|]. split; [reflexivity|].
       destruct (st_tok st) as [|t0 l]; [cbn in Hl; lia|]. cbn [upd nth length] in *.
       split; [reflexivity|]. intros [|k]; cbn [nth]; lia.
+Qed.
+
+Lemma run_any_srcs v st r st' o : run_any v st r = (st', o) -> st_srcs st' = st_srcs st.
+Proof.
+  unfold run_any. destruct (entities_mode r); [|apply run_srcs].
+  unfold run_entities. intros [= <- _]. reflexivity.
+Qed.
+
+(** ** Fullsync in entities mode (HttpDatasetSink): the receiver ends with the source's latest view *)
+Lemma latest_incl f v : In v (latest f) -> In v f.
+Proof.
+  induction f as [|w f IH]; cbn; [auto|]. destruct (zmem (v_id w) (ids f)); [auto|].
+  intros [<-|H]; auto.
+Qed.
+
+Lemma latest_cur f i : cur (latest f) i = cur f i.
+Proof.
+  induction f as [|w f IH]; [reflexivity|]. cbn [latest cur].
+  destruct (zmem (v_id w) (ids f)) eqn:Z.
+  - rewrite IH. destruct (cur f i) eqn:E; [reflexivity|].
+    destruct (Z.eqb_spec (v_id w) i) as [<-|]; [|reflexivity].
+    apply zmem_In in Z. apply cur_none in E. contradiction.
+  - cbn [cur]. now rewrite IH.
+Qed.
+
+Lemma cur_flat_latest owner : forall srcs k0,
+  (forall j x, In x (nth j srcs []) -> owner (v_id x) = k0 + j) ->
+  forall k i, k < length srcs -> In i (ids (nth k srcs [])) ->
+  cur (flat_map latest srcs) i = cur (nth k srcs []) i.
+Proof.
+  induction srcs as [|f srcs IH]; intros k0 Hown k i Hk Hi; [cbn in Hk; lia|].
+  cbn [flat_map]. rewrite cur_app. destruct k as [|k].
+  - cbn [nth] in *. destruct (cur (flat_map latest srcs) i) as [w|] eqn:E; [|apply latest_cur].
+    exfalso. destruct (cur_some _ _ _ E) as [Hid Hin]. apply in_flat_map in Hin.
+    destruct Hin as (s & Hs & Hw). apply latest_incl in Hw.
+    destruct (In_nth _ _ [] Hs) as (j & Hj & Ej). rewrite <- Ej in Hw.
+    pose proof (Hown (S j) w Hw) as H1. cbn [nth] in H1.
+    destruct (In_ids_inv _ _ Hi) as (x & Hx & Hxi). pose proof (Hown 0 x Hx) as H2. cbn [nth] in H2.
+    rewrite Hid in H1. rewrite Hxi in H2. lia.
+  - cbn [nth length] in *.
+    assert (Hown' : forall j x, In x (nth j srcs []) -> owner (v_id x) = S k0 + j).
+    { intros j x Hx. rewrite (Hown (S j) x Hx). lia. }
+    rewrite (IH (S k0) Hown' k i ltac:(lia) Hi).
+    destruct (cur_in _ _ Hi) as (w & ->). reflexivity.
+Qed.
+
+Theorem run_entities_converges owner v st r st' o :
+  vm_eq v = EqFull -> owned owner (st_srcs st) -> rejected r = None ->
+  run_entities v st r = (st', o) ->
+  o = OOk /\ st_srcs st' = st_srcs st
+  /\ st_tok st' = match vm_fs v with FsKeep => st_tok st | FsReset => none_tokens (st_srcs st) end
+  /\ (forall k i, k < length (st_srcs st) -> In i (ids (nth k (st_srcs st) [])) ->
+        cur (st_sink st') i = cur (nth k (st_srcs st) []) i)
+  /\ foreign_deleted st'.
+Proof.
+  intros Hv Hown Hrej H. unfold run_entities in H. rewrite Hrej in H. injection H as <- <-.
+  pose proof (Heqf v Hv) as Heq. cbn [st_srcs st_sink st_tok].
+  set (all := flat_map latest (st_srcs st)).
+  assert (Hall : forall i, In i (ids all) <-> exists k, k < length (st_srcs st) /\ In i (ids (nth k (st_srcs st) []))).
+  { intros i. split.
+    - intros Hi. destruct (In_ids_inv _ _ Hi) as (w & Hw & <-). apply in_flat_map in Hw.
+      destruct Hw as (s & Hs & Hw). apply latest_incl in Hw.
+      destruct (In_nth _ _ [] Hs) as (j & Hj & Ej). exists j. split; [assumption|]. rewrite Ej. now apply In_ids.
+    - intros (k & Hk & Hi). apply cur_in in Hi. destruct Hi as (w & E).
+      rewrite <- (cur_flat_latest owner (st_srcs st) 0 ltac:(intros j x Hx; now rewrite (Hown j x Hx)) k i Hk) in E.
+      + destruct (cur_some _ _ _ E) as [<- Hw]. now apply In_ids.
+      + destruct (cur (nth k (st_srcs st) []) i) eqn:E2; [|discriminate].
+        destruct (cur_some _ _ _ E2) as [<- Hw]. now apply In_ids. }
+  split; [reflexivity|]. split; [reflexivity|]. split; [reflexivity|]. split.
+  - intros k i Hk Hi.
+    assert (Hin : In i (ids all)) by (apply Hall; eauto).
+    rewrite (complete_seen_cur v Hv _ _ _ Hin), (ds_write_cur _ _ Heq).
+    unfold all. rewrite (cur_flat_latest owner (st_srcs st) 0 ltac:(intros j x Hx; now rewrite (Hown j x Hx)) k i Hk Hi).
+    destruct (cur_in _ _ Hi) as (w & ->). reflexivity.
+  - intros i Hi. cbn [st_sink st_srcs] in *.
+    apply (complete_foreign v Hv (st_srcs st)); [|assumption].
+    intros j Hj. now apply Hall.
 Qed.
